@@ -9,6 +9,7 @@ from vlib import auth
 
 
 def run(ctx):
+    ctx.repro_attempts = 6   # order- and schedule-dependent misbehaviour is retried in fresh processes
     ctx.assumptions += ["in-package access to allowerContext through the build-time overlay accessor VerifChecker"]
     ctx.exhaustive = True
     ctx.notes["rule"] = ("all check sequences of length MaxLen over the 17-step pool of Checker.tla per version; "
